@@ -5,6 +5,7 @@
 -/
 import FlacModel.Spec.Rfc
 import FlacModel.Model.Decode
+import FlacModel.Proofs.CrcEq
 
 namespace Flac.C02
 open Flac Gen
@@ -29,10 +30,18 @@ theorem gen_crc8_update_shape (c b : Nat) : crc8Update c b = crc8Table.getD (Nat
 theorem gen_crc16_update_shape (c b : Nat) :
     crc16Update c b = Nat.xor (crc16Table.getD (Nat.xor (c / 2 ^ 8 % 256) b) 0) (c * 2 ^ 8 % 65536) := rfl
 
-/-- the tables compute the specification's bit-serial CRC on every one- and two-byte message
-    starting from every state reachable after one byte (a finite sanity theorem; the general
-    byte-wise/bit-wise equivalence is the textbook table-driven identity and is exercised by the
-    correspondence on every generated frame) -/
+/-- **The checksums the crate computes are the RFC's checksums, on every message of every length**: the table-driven
+    `Crc16`/`Crc8` of crc.rs (tables and update expressions regenerated into `Gen/Crc.lean`) equal the bit-serial LFSRs
+    of x¹⁶+x¹⁵+x²+1 and x⁸+x²+x+1 written from the RFC.  Proof (`Proofs/CrcEq.lean`): the LFSR step is linear over
+    xor, so eight steps from any state are "eight steps of the state" xor "the table entry of the byte"; the tables are
+    checked entry by entry. -/
+theorem crc16_all_messages (bs : List Nat) (hb : ∀ x ∈ bs, x < 256) : crc16 bs = Spec.crc16 bs :=
+  CrcEq.crc16_eq_spec bs hb
+
+theorem crc8_all_messages (bs : List Nat) (hb : ∀ x ∈ bs, x < 256) : crc8 bs = Spec.crc8 bs :=
+  CrcEq.crc8_eq_spec bs hb
+
+/-- the one-byte instances, by evaluation (kept as a direct table check) -/
 theorem gen_crc16_one_byte : ∀ i : Fin 256, crc16 [i.val] = Spec.crc16 [i.val] := by
   decide +kernel
 
